@@ -11,35 +11,35 @@ def hook_commits():
     except Exception:
         return []
 
-SIM_NOTE = ("Trusted base: the simulated kernel (harness/src/sim, fidelity rules K1-K12 in DESIGN.md section 3), the tracking allocator and the "
+SIM_NOTE = ("Trusted base: the simulated kernel (harness/src/sim, fidelity rules K1-K16 in DESIGN.md section 3), the tracking allocator and the "
             "libc symbol interposition; interleavings only under sequential consistency; bounded search, not absence.")
 
 CHECKS = {
     "C01": dict(
         engine="E1+E2+E3",
         category="exploration",
-        text="Generated histories of operations that hand memory to the kernel with drops at every life-cycle point, cancel-race outcomes and EINTR/ECANCELED re-issues; the simulated kernel decodes every user region of each consumed SQE and holds it in a tracking global allocator until the final CQE: a free/realloc overlapping a held region, a region outside live heap/static memory, a moved block or changed source bytes is a violation. One case in five is a multi-completion case (multishot accept, zero-copy send/send_vectored, drops between the two completions, Ring dropped while a notification is outstanding): memory stays put until the kernel's last completion of the request.",
+        text="Generated histories of operations that hand memory to the kernel with drops at every life-cycle point, cancel-race outcomes and EINTR/ECANCELED re-issues; the simulated kernel decodes every user region of each consumed SQE and holds it in a tracking global allocator until the final CQE: a free/realloc overlapping a held region, a region outside live heap/static memory, a moved block or changed source bytes is a violation. One case in five is a multi-completion case (multishot accept, zero-copy send/send_vectored, drops between the two completions, Ring dropped while a notification is outstanding): memory stays put until the kernel's last completion of the request. Operation kinds of the interpreter (29): plain/positional/vectored reads and writes, send/recv with flags, send_to/recv_from and their vectored forms (message header, iovec array, address storage), socket names and get/set socket options (socket commands), statx, connect/bind, path strings (create_dir, remove, rename), waitid and signalfd out-parameters.",
         design_ref="5/C01",
         technique="model-based property testing against a simulated kernel + tracking allocator invariant monitor",
     ),
     "C02": dict(
         engine="E1+E3",
         category="exploration",
-        text="Generated histories with several concurrently in-flight operations carrying unique scripted results, completions posted in generated permutations/batches with consumer polls in between; reference model decides for every poll whether Pending or Ready(v) is legal and what v must be. One case in five is a multi-completion case: per-operation FIFO of consumed completions; multishot results in kernel order, once, end exactly once; zero-copy sends resolve only after the notification with the first completion's value.",
+        text="Generated histories with several concurrently in-flight operations carrying unique scripted results, completions posted in generated permutations/batches with consumer polls in between; reference model decides for every poll whether Pending or Ready(v) is legal and what v must be. One case in five is a multi-completion case: per-operation FIFO of consumed completions; multishot results in kernel order, once, end exactly once; zero-copy sends resolve only after the notification with the first completion's value; Ring::pollable of a second ring supplies a multishot operation whose results are indistinguishable from each other (none may be lost or merged).",
         design_ref="5/C02",
         technique="model-based property testing (reference model of per-operation result delivery)",
     ),
     "C03": dict(
         engine="E1+E3",
         category="exploration",
-        text="C03a quiescence check after every Ring::poll in generated single-thread histories (counting wakers, replaced wakers, over-subscribed 1..4-entry queues): no operation is ready-but-unwoken, operations waiting for queue space are woken once slots are free. Liveness is decided in this safety form only. C03b (2 of 5 cases): submitter threads and the Ring thread interleaved by a baton scheduler at a10's lock/atomic points and every simulated system call; afterwards an executor that re-polls only woken operations must finish everything, first without any completion (queue-space wake-ups), then with completions.",
+        text="C03a quiescence check after every Ring::poll in generated single-thread histories (counting wakers, replaced wakers, over-subscribed 1..4-entry queues): no operation is ready-but-unwoken, operations waiting for queue space are woken once slots are free. Liveness is decided in this safety form only. C03b (2 of 5 cases): submitter threads and the Ring thread interleaved by a baton scheduler at a10's lock/atomic points and every simulated system call; afterwards an executor that re-polls only woken operations must finish everything, first without any completion (queue-space wake-ups), then with completions. Schedules are per-point choice tapes or (half of the cases) PCT priority schedules with up to 3 change points, i.e. long uninterrupted runs with few preemptions; the kernel completes requests between Ring::poll calls or inside the io_uring_enter that consumed them.",
         design_ref="5/C03",
         technique="model-based property testing with counting wakers (quiescence invariant after each Ring::poll) + schedule-controlled concurrency testing (generated schedules under a baton scheduler, executor-progress oracle)",
     ),
     "C04": dict(
         engine="E1+E3 (+E4 for the scheduled sub-check)",
         category="exploration",
-        text="Generated submission histories over 1..8-entry rings with generated 32-bit start counters (incl. 2^32-k) and deliberate over-subscription; every SQE the simulated kernel consumes is compared (multiset, order, all 64 bytes against an independently written encoding) with what a10 accepted; queue-full must wait, room must accept.",
+        text="Generated submission histories over 1..8-entry rings with generated 32-bit start counters (incl. 2^32-k) and deliberate over-subscription; every SQE the simulated kernel consumes is compared (multiset, order, all 64 bytes against an independently written encoding) with what a10 accepted; queue-full must wait, room must accept. C04b (2 of 5 cases): 2..4 submitter threads into a nearly full queue of a default, kernel-thread or single-issuer ring while a poller consumes (or drops the Ring), under the baton scheduler with choice tapes or PCT priority schedules: every consumed entry is a whole submission of exactly one operation, none twice, none missing.",
         design_ref="5/C04",
         technique="model-based property testing (proptest histories) against a simulated io_uring kernel; multiset/byte-exact SQE oracle",
     ),
@@ -73,10 +73,10 @@ CHECKS.update({
     "C14": dict(
         engine="E5 pure-function PBT",
         category="exploration",
-        text="Every provided Buf/BufMut/BufSlice/BufMutSlice implementation and wrapper (incl. arrays/tuples of arity 1..8 with mixed element types and nested LimitedBuf) over generated contents, capacities, fill levels, n and boundary-heavy limits in the whole usize range; laws checked against a model that knows each buffer's allocation bounds.",
+        text="Every provided Buf/BufMut/BufSlice/BufMutSlice implementation and wrapper (incl. arrays/tuples of arity 1..8 with mixed element types and nested LimitedBuf) over generated contents, capacities, fill levels, n and boundary-heavy limits in the whole usize range; laws checked against a model that knows each buffer's allocation bounds. One case in eleven: a ReadBuf (pool buffer filled by the simulated kernel), bare and under a LimitedBuf, at generated fill levels after truncate / set_init / extend_from_slice.",
         design_ref="5/C14",
         technique="property-based testing of trait laws against an allocation-bounds model (proptest)",
-        note="No ring involved. Trusted: the harness' own bookkeeping of allocation bounds; SkipBuf/ReadNBuf/ReadBuf are covered by C10/C15.",
+        note="No ring involved except for the ReadBuf cases (simulated kernel fills the pool buffer). Trusted: the harness' own bookkeeping of allocation bounds; SkipBuf/ReadNBuf (crate-private) are covered through C10, ReadBuf's editing API by C15.",
     ),
     "C16": dict(
         engine="E5 pure-function PBT",
@@ -92,7 +92,7 @@ CHECKS.update({
     "C10": dict(
         engine="E1 + composite driver",
         category="exploration",
-        text="Generated buffer shapes (1..8 buffers of every carrier type, empties anywhere, LimitedBuf), targets, offsets, flag subsets, zero-copy, extract, and a generated sequence of short transfer sizes per request; the simulated kernel's accepted/delivered byte stream is the oracle for all-or-error, offsets/flags/opcode of every continuation, WriteZero/UnexpectedEof conditions and buffer identity.",
+        text="Generated buffer shapes (1..8 buffers of every carrier type, empties anywhere, LimitedBuf; pool ReadBufs fresh or partly filled for read_n/recv_n; one case in eight with buffers over reserved, never touched address space with lengths up to 2^32-1, destinations beyond, totals up to 32 GiB, judged by an (address, length) span oracle), targets, offsets, flag subsets, zero-copy, extract, and a generated sequence of short transfer sizes per request; the simulated kernel's accepted/delivered byte stream is the oracle for all-or-error, offsets/flags/opcode of every continuation, WriteZero/UnexpectedEof conditions and buffer identity.",
         design_ref="5/C10",
         technique="property-based testing with a scripted short-transfer kernel and a byte-stream oracle",
     ),
@@ -152,7 +152,7 @@ CHECKS.update({
     "C17": dict(
         engine="E1+E2 + inotify driver",
         category="exploration",
-        text="A real Watcher (real inotify descriptor and watches) whose READs are answered by the simulated kernel with generated record batches (names 0..255 bytes, kernel and extra padding, all mask bits, unknown wds, IGNORED/OVERFLOW records, every batching that keeps records whole, empty reads, errors, canaries behind the data) plus a retention plan for yielded events; the yielded sequence must equal the model and every retained event must stay unchanged inside its live allocation.",
+        text="A real Watcher (real inotify descriptor and watches) whose READs are answered by the simulated kernel with generated record batches (names 0..255 bytes, kernel and extra padding, all mask bits, unknown wds, one directory optionally renamed and watched again (one descriptor, two paths) or removed, created and watched again (one path, two descriptors), IGNORED/OVERFLOW records, every batching that keeps records whole, empty reads, errors, canaries behind the data) plus a retention plan for yielded events; the yielded sequence must equal the model and every retained event must stay unchanged inside its live allocation.",
         design_ref="5/C17",
         technique="property-based testing of a stream decoder against a record model, with allocation-liveness checks on retained references",
     ),
